@@ -482,13 +482,83 @@ def threaded_cases(ctx):
 
 
 def other_clock_cases(ctx):
-    return [("system", i) for i in range(5)] + [("zoned", i) for i in range(ctx.scale(60, 2000))] + [("from_utc", i) for i in range(20)]
+    return ([("system", i) for i in range(5)] + [("zoned", i) for i in range(ctx.scale(60, 2000))]
+            + [("zoned_hist", i) for i in range(ctx.scale(60, 2000))] + [("from_utc", i) for i in range(20)])
+
+
+def check_zoned_history(i):
+    """ONE ZonedClock used for a whole history: the wrapped FakeClock is moved forwards and BACKWARDS across real
+    zone transitions (advance, reset, auto-advance of either sign, auto-advance changed between reads) and every
+    getter must render the instant the trivial clock model predicts, in the zone and calendar, reading once."""
+    import random
+    from pyoda_time import CalendarSystem, DateTimeZoneProviders, ZonedClock
+    from pyoda_time.testing import FakeClock
+    rng = random.Random(104729 * i + 7)
+    zid = rng.choice(["Europe/London", "America/New_York", "Australia/Lord_Howe", "Pacific/Apia", "Africa/Casablanca",
+                      "America/St_Johns", "Asia/Tehran", "Europe/Dublin", "Antarctica/Troll", "Asia/Kathmandu"])
+    zone = DateTimeZoneProviders.tzdb[zid]
+    cal = CalendarSystem.for_id(rng.choice(["ISO", "ISO", "Julian", "Coptic", "Persian Simple", "Hebrew Civil"]))
+    # transitions of the zone near a seeded instant
+    t0 = rng.randint(-20 * 366 * NPD, 60 * 366 * NPD)
+    trans = []
+    cur = zone.get_zone_interval(inst(*split(t0)))
+    for _ in range(4):
+        if not cur.has_end:
+            break
+        e = cur.end
+        trans.append(e._days_since_epoch * NPD + e._nanosecond_of_day)
+        cur = zone.get_zone_interval(e)
+    if not trans:
+        trans = [t0]
+    now = rng.choice(trans) + rng.choice([-1, 0, 1, -3600 * 10**9, 3600 * 10**9, rng.randint(-NPD, NPD)])
+    auto = rng.choice([0, 0, 1, -1, 60 * 10**9, -20 * 60 * 10**9, rng.randint(-2 * NPD, 2 * NPD)])
+    base = FakeClock(inst(*split(now)), dur(*split(auto)))
+    zc = ZonedClock(base, zone, cal)
+    getters = [("get_current_instant", lambda z: z), ("get_current_zoned_date_time", lambda z: z.in_zone(zone, cal)),
+               ("get_current_local_date_time", lambda z: z.in_zone(zone, cal).local_date_time),
+               ("get_current_offset_date_time", lambda z: z.in_zone(zone, cal).to_offset_date_time()),
+               ("get_current_date", lambda z: z.in_zone(zone, cal).date),
+               ("get_curent_time_of_day", lambda z: z.in_zone(zone, cal).time_of_day)]
+    hist = []
+    for step in range(rng.randint(8, 24)):
+        k = rng.random()
+        if k < 0.3:
+            tgt = rng.choice(trans) + rng.choice([-1, 0, 1, -60 * 10**9, 60 * 10**9, -7200 * 10**9, 7200 * 10**9, rng.randint(-NPD, NPD)])
+            base.reset(inst(*split(tgt)))
+            now = tgt
+            hist.append(f"reset({tgt})")
+        elif k < 0.5:
+            d = rng.choice([-1, 1, -3600 * 10**9, 3600 * 10**9, -NPD, NPD, rng.choice(trans) - now - 1, rng.choice(trans) - now])
+            base.advance(dur(*split(d)))
+            now += d
+            hist.append(f"advance({d})")
+        elif k < 0.6:
+            auto = rng.choice([0, 1, -1, 60 * 10**9, -20 * 60 * 10**9, rng.randint(-NPD, NPD)])
+            base.auto_advance = dur(*split(auto))
+            hist.append(f"auto_advance={auto}")
+        name, view = rng.choice(getters)
+        expected_instant = inst(*split(now))
+        kind_, got = call_with_watchdog("zoned." + name, getattr(zc, name))
+        hist.append(name)
+        if kind_ != "ok":
+            return {"key": "zonedclock-history", "what": f"ZonedClock({zid}, {cal.id}) after {hist}: {name}() raised {type(got).__name__}: {got}"}
+        exp = view(expected_instant)
+        if got != exp:
+            return {"key": "zonedclock-history", "what": f"ZonedClock({zid}, {cal.id}) after {hist[-12:]}: {name}() = {got!r}; the model clock reads "
+                    f"{expected_instant!r}, which renders as {exp!r}"}
+        now += auto
+        fin = base._FakeClock__now
+        if fin._days_since_epoch * NPD + fin._nanosecond_of_day != now:
+            return {"key": "zonedclock-reads-once", "what": f"ZonedClock({zid}) after {hist[-12:]}: the wrapped clock was not read exactly once by {name}()"}
+    return None
 
 
 def check_other(case):
     P = _P()
     import random
     kind, i = case
+    if kind == "zoned_hist":
+        return check_zoned_history(i)
     rng = random.Random(7919 * i + 13)
     if kind == "system":
         from pyoda_time import SystemClock
